@@ -795,3 +795,343 @@ Proof.
   split; [exact ex_kp_refusal_false|]. split; [exact ex_kp_wake_false|].
   split; [exact ex_kp_wake_item_false|exact ex_kp_drain_false].
 Qed.
+
+(** * Trace abstraction: the runs the model side accepts
+
+    [validate_run] keeps the set of LTS states that can have produced the
+    recorded events so far; it accepts a recorded run iff the transition system
+    can produce it under the recorded thread choices.  Invariant of the set
+    along an accepted run: every member is reachable and its [closed] flag says
+    whether [(TK, SRet)] is among the recorded events so far. *)
+
+Definition same_cl (s s' : lstate) : Prop :=
+  (lreach s -> lreach s') /\ q_closed (l_q s') = q_closed (l_q s).
+
+Lemma same_cl_refl s : same_cl s s.
+Proof. split; auto. Qed.
+
+Lemma same_cl_trans a b c : same_cl a b -> same_cl b c -> same_cl a c.
+Proof. intros [H1 H2] [H3 H4]. split; [auto|congruence]. Qed.
+
+Lemma same_cl_step s l s' : lstep s l = Some s' -> l <> LClose -> same_cl s s'.
+Proof.
+  intros Hs Hl. split; [intros Hr; eapply reachable_step; eauto|].
+  destruct l as [n i|n| |b| |]; cbn in Hs; try congruence.
+  - destruct (l_pp s n); try discriminate. destruct (q_closed (l_q s)) eqn:E; inversion Hs; subst; cbn; auto.
+  - destruct (l_pp s n) as [|i|i ok]; try discriminate.
+    + unfold locked_insert in Hs. destruct (cget i (q_counts (l_q s))); inversion Hs; subst; reflexivity.
+    + inversion Hs; subst; cbn. destruct ok; reflexivity.
+  - unfold cons_next, locked_next in Hs.
+    destruct (l_cp s); try discriminate.
+    + destruct (q_queue (l_q s)) as [|x [|y r]]; inversion Hs; subst; reflexivity.
+    + destruct (q_queue (l_q s)) as [|x [|y r]]; inversion Hs; subst; reflexivity.
+    + destruct (Nat.eqb (q_len (l_q s)) 0); inversion Hs; subst; reflexivity.
+  - destruct (l_cp s); try discriminate. destruct b.
+    + destruct (l_cancelled s); inversion Hs; subst; reflexivity.
+    + destruct (q_token (l_q s)); inversion Hs; subst; reflexivity.
+    + destruct (q_closed (l_q s)) eqn:E; inversion Hs; subst; cbn; auto.
+  - inversion Hs; subst; reflexivity.
+Qed.
+
+Lemma cons_go_cl f : forall s s' e, In (s', e) (cons_go f s) -> same_cl s s'.
+Proof.
+  induction f as [|f IH]; intros s s' e Hin; cbn [cons_go In] in Hin; [destruct Hin|].
+  destruct (lstep s LC) as [x|] eqn:Ex; [|destruct Hin].
+  assert (Hx : same_cl s x) by (eapply same_cl_step; [exact Ex|discriminate]).
+  destruct (l_cp x).
+  - destruct Hin as [Hin|[]]. inversion Hin; subst. exact Hx.
+  - eapply same_cl_trans; [exact Hx|eapply IH; exact Hin].
+  - destruct Hin as [Hin|[]]. inversion Hin; subst. exact Hx.
+  - eapply same_cl_trans; [exact Hx|eapply IH; exact Hin].
+Qed.
+
+Lemma br_cl s b s' e :
+  In (s', e) (match lstep s (LSel b) with
+              | None => []
+              | Some x => match l_cp x with
+                          | CIdle => [(x, SRetNext (last_next (l_hist x)))]
+                          | _ => cons_go 4 x
+                          end
+              end) -> same_cl s s'.
+Proof.
+  destruct (lstep s (LSel b)) as [x|] eqn:Ex; [|intros []].
+  assert (Hx : same_cl s x) by (eapply same_cl_step; [exact Ex|discriminate]).
+  destruct (l_cp x); intros Hin.
+  - destruct Hin as [Hin|[]]. inversion Hin; subst. exact Hx.
+  - eapply same_cl_trans; [exact Hx|eapply cons_go_cl; exact Hin].
+  - eapply same_cl_trans; [exact Hx|eapply cons_go_cl; exact Hin].
+  - eapply same_cl_trans; [exact Hx|eapply cons_go_cl; exact Hin].
+Qed.
+
+Lemma cons_macro_cl s s' e : In (s', e) (cons_macro s) -> same_cl s s'.
+Proof.
+  unfold cons_macro. destruct (l_cp s); try (apply cons_go_cl).
+  match goal with |- In _ (match ?l with _ => _ end) -> _ => destruct l as [|y r] eqn:El end.
+  - intros [Hin|[]]. inversion Hin; subst. apply same_cl_refl.
+  - rewrite <- El. intros Hin.
+    apply in_app_or in Hin. destruct Hin as [Hin|Hin]; [eapply br_cl; exact Hin|].
+    apply in_app_or in Hin. destruct Hin as [Hin|Hin]; eapply br_cl; exact Hin.
+Qed.
+
+Lemma prod_macro_cl s n it s' e : In (s', e) (prod_macro s n it) -> same_cl s s'.
+Proof.
+  unfold prod_macro. destruct (l_pp s n).
+  - destruct it as [i|]; [|intros []]. destruct (lstep s (LCall n i)) as [x|] eqn:Ex; [|intros []].
+    assert (Hx : same_cl s x) by (eapply same_cl_step; [exact Ex|discriminate]).
+    destruct (l_pp x n); intros [Hin|[]]; inversion Hin; subst; exact Hx.
+  - destruct (lstep s (LP n)) as [x|] eqn:Ex; [|intros []].
+    intros [Hin|[]]. inversion Hin; subst. eapply same_cl_step; [exact Ex|discriminate].
+  - destruct (lstep s (LP n)) as [x|] eqn:Ex; [|intros []].
+    intros [Hin|[]]. inversion Hin; subst. eapply same_cl_step; [exact Ex|discriminate].
+Qed.
+
+Lemma dedup_by_In {A} (e : A -> A -> bool) x l : In x (dedup_by e l) -> In x l.
+Proof.
+  induction l as [|y l IH]; cbn; [auto|].
+  destruct (existsb (e y) l); [intros H; right; auto|intros [H|H]; auto].
+Qed.
+
+Definition vinv (done : list (tid * sev)) (ss : list lstate) : Prop :=
+  forall s, In s ss -> lreach s /\ (q_closed (l_q s) = true <-> In (TK, SRet) done).
+
+Definition vpark (blocked : bool) (t : tid) (ss : list lstate) : list lstate :=
+  match t with
+  | TC => ss
+  | _ => if blocked then filter (fun s => negb (sel_enabled s)) ss else ss
+  end.
+
+Lemma vpark_In b t ss s : In s (vpark b t ss) -> In s ss.
+Proof. destruct t; cbn; try (destruct b; [intros H; apply filter_In in H; tauto|auto]); auto. Qed.
+
+(** where a member of the next state set comes from *)
+Lemma vstep_origin np ss progs b t e ss' progs' b' s' :
+  vstep np ss progs b t e = (ss', progs', b') -> In s' ss' ->
+  exists s, In s ss /\
+    match t with
+    | TP n => exists it ev, In (s', ev) (prod_macro s n it) /\ sev_eqb e ev = true
+    | TC => exists ev, In (s', ev) (cons_macro s) /\ sev_eqb e ev = true
+    | TK => lstep s LClose = Some s' /\ e = SRet
+    | TX => lstep s LCancel = Some s' /\ e = SRet
+    end.
+Proof.
+  unfold vstep. fold (vpark b t ss).
+  destruct t as [n| | |]; intros Hv Hin; inversion Hv; subst; clear Hv;
+    apply dedup_by_In in Hin; apply in_flat_map in Hin; destruct Hin as (s & Hs & Hin);
+    (assert (Hs' : In s ss)
+       by (match type of Hs with
+           | In _ (if ?c then _ else _) => destruct c; [apply filter_In in Hs; apply Hs|exact Hs]
+           | _ => exact Hs
+           end));
+    exists s; (split; [exact Hs'|]).
+  - apply in_map_iff in Hin. destruct Hin as ([x ev] & Hx & Hf). cbn in Hx. subst x.
+    apply filter_In in Hf. destruct Hf as [Hf He]. eauto.
+  - destruct (b && negb match l_cp s with CWait => true | _ => false end); [destruct Hin|].
+    apply in_map_iff in Hin. destruct Hin as ([x ev] & Hx & Hf). cbn in Hx. subst x.
+    apply filter_In in Hf. destruct Hf as [Hf He]. eauto.
+  - destruct e as [[]|[?|]|[? ?| | |]| | | |]; cbn in Hin; try (destruct Hin; fail);
+      destruct Hin as [<-|[]]; split; reflexivity.
+  - destruct e as [[]|[?|]|[? ?| | |]| | | |]; cbn in Hin; try (destruct Hin; fail);
+      destruct Hin as [<-|[]]; split; reflexivity.
+Qed.
+
+Lemma vinv_step np ss progs b t e ss' progs' b' done :
+  vstep np ss progs b t e = (ss', progs', b') -> vinv done ss -> vinv (done ++ [(t, e)]) ss'.
+Proof.
+  intros Hv Hi s' Hin. destruct (vstep_origin _ _ _ _ _ _ _ _ _ _ Hv Hin) as (s & Hs & Ho).
+  destruct (Hi s Hs) as [Hr Hc].
+  assert (Hother : same_cl s s' -> (t, e) <> (TK, SRet) ->
+                   lreach s' /\ (q_closed (l_q s') = true <-> In (TK, SRet) (done ++ [(t, e)]))).
+  { intros [H1 H2] Hne. split; [auto|]. rewrite H2, Hc, in_app_iff. cbn. split; [auto|].
+    intros [H|[H|[]]]; [exact H|contradiction]. }
+  destruct t as [n| | |].
+  - destruct Ho as (it & ev & Hp & _). apply Hother; [eapply prod_macro_cl; exact Hp|discriminate].
+  - destruct Ho as (ev & Hp & _). apply Hother; [eapply cons_macro_cl; exact Hp|discriminate].
+  - destruct Ho as [Hl ->]. split; [eapply reachable_step; eauto|].
+    split; [intros _; apply in_app_iff; right; left; reflexivity|intros _].
+    cbn in Hl. inversion Hl; subst; cbn. unfold q_close. destruct (q_closed (l_q s)) eqn:E; [exact E|reflexivity].
+  - destruct Ho as [Hl ->]. apply Hother; [eapply same_cl_step; [exact Hl|discriminate]|discriminate].
+Qed.
+
+Lemma vinv_init : vinv [] [l_init].
+Proof.
+  intros s [<-|[]]. split; [apply reachable_refl|]. cbn. split; [discriminate|intros []].
+Qed.
+
+Lemma validate_split np fb fl pre : forall i ss progs b post done,
+  vinv done ss -> validate_run np i ss progs b (pre ++ post) fb fl = [] ->
+  exists i' ss' progs' b', vinv (done ++ pre) ss' /\ validate_run np i' ss' progs' b' post fb fl = [].
+Proof.
+  induction pre as [|[t e] pre IH]; intros i ss progs b post done Hi Hr.
+  - rewrite app_nil_r. exists i, ss, progs, b. split; assumption.
+  - cbn [app validate_run] in Hr.
+    destruct (vstep np ss progs b t e) as [[ss1 progs1] b1] eqn:Ev.
+    destruct ss1 as [|s1 r1]; [discriminate|].
+    destruct (IH _ _ _ _ post (done ++ [(t, e)]) (vinv_step _ _ _ _ _ _ _ _ _ _ Ev Hi) Hr)
+      as (i' & ss' & progs' & b' & Hi' & Hr').
+    rewrite <- app_assoc in Hi'. eauto 8.
+Qed.
+
+(** what a producer macro-step can report, by the closed flag of its origin *)
+Lemma prod_macro_sev s n it s' ev :
+  In (s', ev) (prod_macro s n it) ->
+  (ev = SAt PtChecked -> q_closed (l_q s) = false) /\ (ev = SRetIns IClosed -> q_closed (l_q s) = true).
+Proof.
+  unfold prod_macro. destruct (l_pp s n) eqn:Ep.
+  - destruct it as [i|]; [|intros []]. cbn. rewrite Ep.
+    destruct (q_closed (l_q s)) eqn:Ec; cbn; rewrite ?Ep, ?set_pp_same;
+      intros [Hin|[]]; inversion Hin; subst; split; intros H; try discriminate; reflexivity.
+  - destruct (lstep s (LP n)); [|intros []]. intros [Hin|[]]. inversion Hin; subst. split; discriminate.
+  - destruct (lstep s (LP n)); [|intros []]. intros [Hin|[]]. inversion Hin; subst. split; discriminate.
+Qed.
+
+(** Every recorded run the transition system can produce (accepted by
+    [validate_run]) satisfies the refusal statement. *)
+Theorem model_run_refusal progs steps fb fl :
+  validate_run (List.length progs) 0 [l_init] progs false steps fb fl = [] -> refusal_decl steps.
+Proof.
+  intros H pre n e post ->.
+  destruct (validate_split _ _ _ pre _ _ _ _ _ [] vinv_init H) as (i' & ss' & progs' & b' & Hi & Hr).
+  cbn [app] in Hi. cbn [validate_run] in Hr.
+  destruct (vstep (List.length progs) ss' progs' b' (TP n) e) as [[ss1 progs1] b1] eqn:Ev.
+  destruct ss1 as [|s1 r1]; [discriminate|].
+  destruct (vstep_origin _ _ _ _ _ _ _ _ _ s1 Ev (or_introl eq_refl)) as (s & Hs & it & ev & Hp & He).
+  destruct (Hi s Hs) as [_ Hc]. destruct (prod_macro_sev _ _ _ _ _ Hp) as [H1 H2].
+  split.
+  - intros -> Hin. apply Hc in Hin.
+    assert (ev = SAt PtChecked) as -> by (destruct ev as [[]|[?|]|[? ?| | |]| | | |]; try discriminate; reflexivity).
+    rewrite (H1 eq_refl) in Hin. discriminate.
+  - intros ->. apply Hc.
+    assert (ev = SRetIns IClosed) as -> by (destruct ev as [[]|[?|]|[? ?| | |]| | | |]; try discriminate; reflexivity).
+    exact (H2 eq_refl).
+Qed.
+
+Corollary model_check_refusal progs steps fb fl :
+  validate_run (List.length progs) 0 [l_init] progs false steps fb fl = [] ->
+  forall pre n e post, steps = pre ++ (TP n, e) :: post ->
+    refusal_ok (In (TK, SRet) pre) (e = SAt PtChecked) (e = SRetIns IClosed).
+Proof. exact (model_run_refusal progs steps fb fl). Qed.
+
+(** ** "closed" is reported only after Close, for whole model runs *)
+
+Lemma lc_closed_report x s' :
+  lreach x -> lstep x LC = Some s' -> l_cp s' = CIdle -> last_next (l_hist s') = NClosed ->
+  q_closed (l_q x) = true.
+Proof.
+  intros Hr Hs Hc Hl. cbn in Hs. unfold cons_next in Hs. destruct (l_cp x) eqn:Ec; try discriminate.
+  - destruct (locked_next (l_q x)) as [[[i d] q']|]; inversion Hs; subst; cbn in *; congruence.
+  - destruct (locked_next (l_q x)) as [[[i d] q']|]; inversion Hs; subst; cbn in *; congruence.
+  - destruct (linv_reachable x Hr) as [_ _ _ Hlen _ _]. exact (Hlen Ec).
+Qed.
+
+Lemma cons_go_closed f : forall s s',
+  lreach s -> In (s', SRetNext NClosed) (cons_go f s) -> q_closed (l_q s) = true.
+Proof.
+  induction f as [|f IH]; intros s s' Hr Hin; cbn [cons_go In] in Hin; [destruct Hin|].
+  destruct (lstep s LC) as [x|] eqn:Ex; [|destruct Hin].
+  assert (Hx : same_cl s x) by (eapply same_cl_step; [exact Ex|discriminate]).
+  destruct Hx as [Hrx Hcx].
+  destruct (l_cp x) eqn:Ecx.
+  - destruct Hin as [Hin|[]]. inversion Hin; subst. eapply lc_closed_report; eauto.
+  - rewrite <- Hcx. eapply IH; [auto|exact Hin].
+  - destruct Hin as [Hin|[]]. discriminate.
+  - rewrite <- Hcx. eapply IH; [auto|exact Hin].
+Qed.
+
+Lemma br_closed s b s' :
+  lreach s ->
+  In (s', SRetNext NClosed)
+     (match lstep s (LSel b) with
+      | None => []
+      | Some x => match l_cp x with
+                  | CIdle => [(x, SRetNext (last_next (l_hist x)))]
+                  | _ => cons_go 4 x
+                  end
+      end) -> q_closed (l_q s) = true.
+Proof.
+  intros Hr. destruct (lstep s (LSel b)) as [x|] eqn:Ex; [|intros []].
+  assert (Hx : same_cl s x) by (eapply same_cl_step; [exact Ex|discriminate]).
+  destruct Hx as [Hrx Hcx].
+  destruct (l_cp x) eqn:Ecx; intros Hin.
+  - destruct Hin as [Hin|[]]. inversion Hin; subst. exfalso.
+    cbn in Ex. destruct (l_cp s); try discriminate. destruct b.
+    + destruct (l_cancelled s); inversion Ex; subst; cbn in *; congruence.
+    + destruct (q_token (l_q s)); inversion Ex; subst; cbn in *; congruence.
+    + destruct (q_closed (l_q s)); inversion Ex; subst; cbn in *; congruence.
+  - rewrite <- Hcx. eapply cons_go_closed; [auto|exact Hin].
+  - rewrite <- Hcx. eapply cons_go_closed; [auto|exact Hin].
+  - rewrite <- Hcx. eapply cons_go_closed; [auto|exact Hin].
+Qed.
+
+Lemma cons_macro_closed s s' :
+  lreach s -> In (s', SRetNext NClosed) (cons_macro s) -> q_closed (l_q s) = true.
+Proof.
+  intros Hr. unfold cons_macro. destruct (l_cp s); try (apply cons_go_closed; exact Hr).
+  match goal with |- In _ (match ?l with _ => _ end) -> _ => destruct l as [|y r] eqn:El end.
+  - intros [Hin|[]]. discriminate.
+  - rewrite <- El. intros Hin.
+    apply in_app_or in Hin. destruct Hin as [Hin|Hin]; [eapply br_closed; eauto|].
+    apply in_app_or in Hin. destruct Hin as [Hin|Hin]; eapply br_closed; eauto.
+Qed.
+
+(** first half of [drain_decl] for every recorded run the transition system
+    can produce: "closed" is reported only after Close has run *)
+Theorem model_run_closed_after_close progs steps fb fl :
+  validate_run (List.length progs) 0 [l_init] progs false steps fb fl = [] ->
+  forall pre post, steps = pre ++ (TC, SRetNext NClosed) :: post -> In (TK, SRet) pre.
+Proof.
+  intros H pre post ->.
+  destruct (validate_split _ _ _ pre _ _ _ _ _ [] vinv_init H) as (i' & ss' & progs' & b' & Hi & Hr).
+  cbn [app] in Hi. cbn [validate_run] in Hr.
+  destruct (vstep (List.length progs) ss' progs' b' TC (SRetNext NClosed)) as [[ss1 progs1] b1] eqn:Ev.
+  destruct ss1 as [|s1 r1]; [discriminate|].
+  destruct (vstep_origin _ _ _ _ _ _ _ _ _ s1 Ev (or_introl eq_refl)) as (s & Hs & ev & Hp & He).
+  destruct (Hi s Hs) as [Hreach Hc].
+  assert (ev = SRetNext NClosed) as ->
+    by (destruct ev as [[]|[?|]|[? ?| | |]| | | |]; try discriminate; reflexivity).
+  apply Hc. eapply cons_macro_closed; eauto.
+Qed.
+
+(** non-vacuity of the trace-abstraction theorems: [run_good] is produced by the
+    transition system; [run_bad_refusal] and a "closed" without Close are not *)
+Example ex_model_runs :
+  validate_run 1 0 [l_init] [[5; 6]] false run_good false 0 = [] /\
+  validate_run 1 0 [l_init] [[5]] false run_bad_refusal false 0 <> [] /\
+  validate_run 1 0 [l_init] [[5]] false [(TC, SAt PtEmpty); (TC, SRetNext NClosed)] false 0 <> [].
+Proof. split; [vm_compute; reflexivity|split; vm_compute; discriminate]. Qed.
+
+(** the end-of-run case of [wake_decl] for whole model runs: a run the
+    transition system can produce and that ends with the consumer parked ends in
+    a reachable state whose consumer is at the select with no enabled case, hence
+    entitled to wait -- in particular Close is not among the recorded events *)
+Theorem model_run_final_parked progs steps fl :
+  validate_run (List.length progs) 0 [l_init] progs false steps true fl = [] ->
+  exists s, lreach s /\ l_cp s = CWait /\ (forall b, lstep s (LSel b) = None) /\
+            q_len (l_q s) = fl /\ ~ In (TK, SRet) steps /\
+            entitled_at (q_closed (l_q s)) (l_cancelled s) (lin (l_hist s))
+                        (exists n i, l_pp s n = PInserted i true).
+Proof.
+  intros H.
+  assert (H0 : validate_run (List.length progs) 0 [l_init] progs false (steps ++ []) true fl = [])
+    by (rewrite app_nil_r; exact H).
+  destruct (validate_split _ _ _ steps _ _ _ _ [] [] vinv_init H0) as (i' & ss' & p' & b' & Hi & Hr).
+  cbn [app] in Hi. cbn [validate_run] in Hr.
+  match type of Hr with (match ?l with _ => _ end) = _ => destruct l as [|s r] eqn:Ef end; [discriminate|].
+  assert (Hin : In s (s :: r)) by (left; reflexivity). rewrite <- Ef in Hin.
+  apply filter_In in Hin. destruct Hin as [Hin Hlen]. apply filter_In in Hin. destruct Hin as [Hin Hp].
+  apply andb_true_iff in Hp. destruct Hp as [Hne Hcw].
+  assert (Hw : l_cp s = CWait) by (destruct (l_cp s); try discriminate; reflexivity).
+  destruct (Hi s Hin) as [Hreach Hc].
+  unfold sel_enabled in Hne. rewrite Hw in Hne. apply negb_true_iff in Hne.
+  apply orb_false_iff in Hne. destruct Hne as [Hne Hcl]. apply orb_false_iff in Hne. destruct Hne as [Hca Htk].
+  assert (Hb : forall b, lstep s (LSel b) = None).
+  { intros b. cbn. rewrite Hw, Hca, Htk, Hcl. destruct b; reflexivity. }
+  exists s. split; [exact Hreach|]. split; [exact Hw|]. split; [exact Hb|].
+  split; [apply Nat.eqb_eq; exact Hlen|].
+  split; [intros Hk; apply Hc in Hk; congruence|].
+  apply lts_parked_entitled; assumption.
+Qed.
+
+Example ex_model_final_parked :
+  validate_run 1 0 [l_init] [[5]] false [(TC, SAt PtEmpty); (TC, SBlocked)] true 0 = [] /\
+  validate_run 1 0 [l_init] [[5]] false run_bad_wake true 0 <> [].
+Proof. split; [vm_compute; reflexivity|vm_compute; discriminate]. Qed.
